@@ -6,6 +6,7 @@ import PymaVerif.Model.Closure
 import Mathlib.Tactic.Ring
 import Mathlib.Tactic.Linarith
 import Mathlib.Data.List.Forall2
+import Mathlib.Logic.Relation
 
 namespace Pyma
 namespace Closure
@@ -255,6 +256,20 @@ theorem closure_eq_self_of_trans (htr : ∀ a b c, a < n → b < n → c < n →
   · intro h
     exact closure_minimal r (fun a b => r a b = true) (fun _ _ _ _ h => h) htr h
   · exact closure_of_rel r ha hb
+
+/-- **characterisation**: `closure n r a b` holds exactly when `a` and `b` are connected by a chain of `r`-steps through states below `n` — for "equal within
+atol" inside a block: by a chain of levels each within `atol` of the next (the labels of `connected_components` agree) -/
+theorem closure_iff_chain {a b : Nat} :
+    closure n r a b = true ↔ Relation.TransGen (fun x y => x < n ∧ y < n ∧ r x y = true) a b := by
+  constructor
+  · intro h
+    exact closure_minimal r (fun x y => Relation.TransGen (fun x y => x < n ∧ y < n ∧ r x y = true) x y)
+      (fun x y hx hy hxy => Relation.TransGen.single ⟨hx, hy, hxy⟩)
+      (fun _ _ _ _ _ _ h1 h2 => Relation.TransGen.trans h1 h2) h
+  · intro h
+    induction h with
+    | single hxy => exact closure_of_rel r hxy.1 hxy.2.1 hxy.2.2
+    | tail _ hyz ih => exact closure_trans r ih (closure_of_rel r hyz.1 hyz.2.1 hyz.2.2)
 
 end Closure
 end Pyma
